@@ -246,7 +246,7 @@ def _run_sim(case):
         ec = float(max(np.max(np.abs(ac - a)), np.max(np.abs(bc - b)))) if ac.shape == a.shape \
             else np.inf
         checks += 1
-        if not ec <= 1e-12:
+        if not ec <= max(1e-12, utol * 10):
             return violated(sig, "%s: the pulse as an (Nt, 1) column vector gives another "
                             "rotation than the same pulse as a 1-D array (max difference "
                             "%.3g)" % (sim, ec), wit, mech="column-rf:" + sim)
